@@ -184,3 +184,217 @@ theorem report_total (genes : List Gene) (hn : (genes.map (·.name)).Nodup)
     exact construct_same_strand ds s hne hstr _ _ _ _ _
 
 end ASV.Modules
+
+namespace ASV.Modules
+open T Spec
+
+/-! ### merged modules only ever hold domains of genes on one strand -/
+
+/-- the strand of the gene a locus names -/
+def strandOfLocus (genes : List Gene) (l : String) : Int :=
+  match genes.find? fun g => g.name == l with
+  | some g => g.strand
+  | none => 0
+
+theorem geneTables_strandOf (genes : List Gene) (l : String) (hit : Domain) (d : FDomain)
+    (h : geneTables genes l hit = some d) : d.strand = strandOfLocus genes l := by
+  unfold geneTables at h
+  unfold strandOfLocus
+  cases hf : genes.find? (fun g => g.name == l) with
+  | none => rw [hf] at h; cases h
+  | some g =>
+    rw [hf] at h
+    obtain ⟨e, he, hd⟩ := tableOf_mem _ _ _ h
+    have := (domainFeatures_locus g.name g.strand g.domains [] e he).2
+    rw [← hd, this]
+
+/-- loop invariant: every component kept in a gene's module list comes from a gene on that gene's strand -/
+theorem chainGo_strand (all : List Gene) (hn : (all.map (·.name)).Nodup) :
+    ∀ (genes : List Gene) (results : List GeneResult) (live : Bool),
+    (∀ g ∈ genes, g ∈ all) →
+    (∀ g ∈ genes, g.name.isEmpty = false ∧ ∀ d ∈ g.domains, (classify d.label).isSome = true) →
+    (∀ r ∈ results, ∀ m ∈ r.modules, Good m) →
+    (∀ r ∈ results, ∀ m ∈ r.modules, ∀ c ∈ m.components, strandOfLocus all c.locus = r.strand) →
+    ∃ out, chainGo genes results live = .ok out ∧ (∀ r ∈ out, ∀ m ∈ r.modules, Good m)
+      ∧ ∀ r ∈ out, ∀ m ∈ r.modules, ∀ c ∈ m.components, strandOfLocus all c.locus = r.strand := by
+  intro genes
+  induction genes with
+  | nil => intro results live _ _ hr hs; exact ⟨results, rfl, hr, hs⟩
+  | cons g rest ih =>
+    intro results live hall hg hr hs
+    have hrest : ∀ g ∈ rest, g.name.isEmpty = false ∧ ∀ d ∈ g.domains, (classify d.label).isSome = true :=
+      fun x hx => hg x (List.mem_cons_of_mem _ hx)
+    have hall' : ∀ g ∈ rest, g ∈ all := fun x hx => hall x (List.mem_cons_of_mem _ hx)
+    simp only [chainGo]
+    cases hskip : (g.domains.isEmpty && !g.hasMotifs) with
+    | true => simp only [if_true]; exact ih results false hall' hrest hr hs
+    | false =>
+      simp only [Bool.false_eq_true, if_false]
+      obtain ⟨ms, hb, hsp, hflat, _⟩ := build_spec g.domains g.name (hg g (List.mem_cons_self)).1 (hg g (List.mem_cons_self)).2
+      obtain ⟨ms', hb', hms⟩ := build_good g.domains g.name (hg g (List.mem_cons_self)).1 (hg g (List.mem_cons_self)).2
+      rw [hb] at hb'; injection hb' with hb'; subst hb'
+      rw [hb]
+      simp only
+      have hgs : strandOfLocus all g.name = g.strand := by
+        unfold strandOfLocus; rw [find?_unique all hn g (hall g (List.mem_cons_self))]
+      have hown : ∀ m ∈ ms, ∀ c ∈ m.components, strandOfLocus all c.locus = g.strand := by
+        intro m hm c hc
+        have hmem : c ∈ ms.flatMap (·.components) := List.mem_flatMap.mpr ⟨m, hm, hc⟩
+        rw [hflat, kept_eq] at hmem
+        rw [(mem_keptComps g.name g.domains c hmem).1]; exact hgs
+      have plainG : ∀ r ∈ results ++ [(⟨g.name, g.strand, g.region, ms, g.index, ms.isEmpty⟩ : GeneResult)],
+          ∀ m ∈ r.modules, Good m := by
+        intro r hrm
+        rcases List.mem_append.mp hrm with h | h
+        · exact hr r h
+        · simp at h; subst h; exact hms
+      have plainS : ∀ r ∈ results ++ [(⟨g.name, g.strand, g.region, ms, g.index, ms.isEmpty⟩ : GeneResult)],
+          ∀ m ∈ r.modules, ∀ c ∈ m.components, strandOfLocus all c.locus = r.strand := by
+        intro r hrm
+        rcases List.mem_append.mp hrm with h | h
+        · exact hs r h
+        · simp at h; subst h; exact hown
+      cases hprev : (if live = true then results.getLast? else none) with
+      | none => exact ih _ true hall' hrest plainG plainS
+      | some prev =>
+        simp only
+        have hpm : prev ∈ results := by
+          cases live with
+          | false => simp at hprev
+          | true => simp at hprev; exact List.mem_of_getLast? hprev
+        have hpg := hr prev hpm
+        have hps := hs prev hpm
+        cases hcond : (!prev.modules.isEmpty && !ms.isEmpty && prev.region == g.region) with
+        | false => simp only [Bool.false_eq_true, if_false]; exact ih _ true hall' hrest plainG plainS
+        | true =>
+          simp only [if_true]
+          have hdlG : ∀ r ∈ results.dropLast, ∀ m ∈ r.modules, Good m := fun r h => hr r (mem_dropLast h)
+          have hdlS : ∀ r ∈ results.dropLast, ∀ m ∈ r.modules, ∀ c ∈ m.components,
+              strandOfLocus all c.locus = r.strand := fun r h => hs r (mem_dropLast h)
+          -- both new lists only hold components of the two old lists; if anything changed the strands are equal
+          have finish : ∀ (pm im : List Module), (∀ m ∈ pm, Good m) → (∀ m ∈ im, Good m) →
+              ((pm = prev.modules ∧ im = ms) ∨
+               (prev.strand = g.strand ∧ (pm ++ im).flatMap (·.components) ⊆ (prev.modules ++ ms).flatMap (·.components))) →
+              ∃ out, chainGo rest (results.dropLast ++ [{ prev with modules := pm },
+                  { (⟨g.name, g.strand, g.region, ms, g.index, ms.isEmpty⟩ : GeneResult) with modules := im }]) true = .ok out
+                ∧ (∀ r ∈ out, ∀ m ∈ r.modules, Good m)
+                ∧ ∀ r ∈ out, ∀ m ∈ r.modules, ∀ c ∈ m.components, strandOfLocus all c.locus = r.strand := by
+            intro pm im hpmg himg hcase
+            have hold : ∀ c ∈ (prev.modules ++ ms).flatMap (·.components), prev.strand = g.strand →
+                strandOfLocus all c.locus = g.strand := by
+              intro c hc he
+              obtain ⟨m, hm, hcm⟩ := List.mem_flatMap.mp hc
+              rcases List.mem_append.mp hm with h | h
+              · rw [← he]; exact hps m h c hcm
+              · exact hown m h c hcm
+            apply ih _ true hall' hrest
+            · intro x hx
+              rcases List.mem_append.mp hx with h | h
+              · exact hdlG x h
+              · simp at h
+                rcases h with h | h
+                · subst h; exact hpmg
+                · subst h; exact himg
+            · intro x hx
+              rcases List.mem_append.mp hx with h | h
+              · exact hdlS x h
+              · simp at h
+                rcases hcase with ⟨e1, e2⟩ | ⟨he, hsub⟩
+                · rcases h with h | h
+                  · subst h; subst e1; exact hps
+                  · subst h; subst e2; exact hown
+                · rcases h with h | h
+                  · subst h
+                    intro m hm c hc
+                    show strandOfLocus all c.locus = prev.strand
+                    rw [he]
+                    exact hold c (hsub (List.mem_flatMap.mpr ⟨m, List.mem_append_left _ hm, hc⟩)) he
+                  · subst h
+                    intro m hm c hc
+                    exact hold c (hsub (List.mem_flatMap.mpr ⟨m, List.mem_append_right _ hm, hc⟩)) he
+          cases hstr : (g.strand == -1) with
+          | true =>
+            simp only [if_true]
+            obtain ⟨r, hc, h1, h2, _, h4⟩ := combine_good prev.strand g.strand prev.modules ms hms hpg
+            rw [hc]
+            simp only
+            apply finish r.cur r.prev h2 h1
+            by_cases hse : prev.strand = g.strand
+            · right
+              refine ⟨hse, ?_⟩
+              have hflat2 := combineOK_flat h4
+              intro c hcm
+              simp only [List.flatMap_append, List.mem_append] at hcm ⊢
+              have : c ∈ (r.prev ++ r.cur).flatMap (·.components) := by
+                simp only [List.flatMap_append, List.mem_append]; exact hcm.symm
+              rw [hflat2] at this
+              simp only [List.flatMap_append, List.mem_append] at this
+              exact this.symm
+            · left
+              rw [combine_diff_strand _ _ _ _ hse] at hc
+              injection hc with hc; subst hc
+              exact ⟨rfl, rfl⟩
+          | false =>
+            simp only [Bool.false_eq_true, if_false]
+            obtain ⟨r, hc, h1, h2, _, h4⟩ := combine_good g.strand prev.strand ms prev.modules hpg hms
+            rw [hc]
+            simp only
+            apply finish r.prev r.cur h1 h2
+            by_cases hse : g.strand = prev.strand
+            · right
+              refine ⟨hse.symm, ?_⟩
+              have hflat2 := combineOK_flat h4
+              intro c hcm
+              rw [hflat2] at hcm
+              exact hcm
+            · left
+              rw [combine_diff_strand _ _ _ _ hse] at hc
+              injection hc with hc; subst hc
+              exact ⟨rfl, rfl⟩
+
+end ASV.Modules
+
+namespace ASV.Modules
+open T Spec
+
+/-- `add_to_record` for every reported module, any mixture of strands -/
+theorem report_total_mixed (genes : List Gene) (hn : (genes.map (·.name)).Nodup)
+    (hg : ∀ g ∈ genes, g.name.isEmpty = false ∧ ∀ d ∈ g.domains, (classify d.label).isSome = true)
+    (out : List GeneResult) (ho : chain genes = .ok out) :
+    ∀ r ∈ out, ∀ m ∈ r.modules, ∃ f, m.report (geneTables genes) r.name = .ok f
+      ∧ f.domains.map (·.locus) = m.components.map (·.locus)
+      ∧ (∀ d ∈ f.domains, d.strand = r.strand)
+      ∧ f.complete = m.isComplete ∧ f.starter = m.isStarterModule ∧ f.final = m.isTerminationModule
+      ∧ f.iterative = m.isIterative ∧ f.type = m.featureType := by
+  unfold chain at ho
+  cases hR : chainGo genes [] false with
+  | error e => rw [hR] at ho; cases ho
+  | ok R =>
+    rw [hR] at ho
+    injection ho with ho; subst ho
+    obtain ⟨R', hR', _, hstrand⟩ := chainGo_strand genes hn genes [] false (fun g h => h) hg
+      (fun r hr => by cases hr) (fun r hr => by cases hr)
+    rw [hR] at hR'; injection hR' with hR'; subst hR'
+    intro r hr m hm
+    obtain ⟨r0, hr0, rfl⟩ := List.mem_map.mp hr
+    simp only at hm
+    obtain ⟨hm0, hbig⟩ := List.mem_filter.mp hm
+    obtain ⟨ds, hl, hsome, hloc⟩ := report_domains genes hn hg R hR r0.name r0 hr0 m hm0
+    have hlen : ds.length = m.components.length := by
+      have := congrArg List.length hloc; simpa using this
+    have hne : ds ≠ [] := by
+      intro h; rw [h] at hlen; simp at hbig; simp at hlen; omega
+    have hstr : ∀ d ∈ ds, d.strand = r0.strand := by
+      intro d hd
+      have : some d ∈ ds.map some := List.mem_map.mpr ⟨d, hd, rfl⟩
+      rw [hsome] at this
+      obtain ⟨c, hcm, hc⟩ := List.mem_map.mp this
+      rw [geneTables_strandOf genes _ _ _ hc]
+      exact hstrand r0 hr0 m hm0 c hcm
+    refine ⟨⟨ds, m.featureType, m.isComplete, m.isStarterModule, m.isTerminationModule, m.isIterative⟩,
+            ?_, hloc, hstr, rfl, rfl, rfl, rfl, rfl⟩
+    unfold Module.report Module.toFeature
+    simp only [hl]
+    exact construct_same_strand ds r0.strand hne hstr _ _ _ _ _
+
+end ASV.Modules
